@@ -333,3 +333,32 @@ class Result:
             print(f"VIOLATION property={self.pid} replay={d}")
             print(f"  {desc}")
         return 1 if self.violations else 0
+
+
+def tlc_simulate(module, cfg, num, depth, seed, timeout=600, name=None):
+    """Run TLC in simulation mode; the spec prints finished behaviours as
+    'BEHAVIOUR <json>' lines (ToJson of its history variable). Returns the list
+    of decoded behaviours (duplicates removed, order kept)."""
+    wd = subdir("sim-" + (name or cfg.replace(".cfg", "")))
+    _stage_spec(wd)
+    cmd = _tlc_cmd(heap="4g") + ["-workers", "1", "-simulate", f"num={num}", "-depth", str(depth), "-seed", str(seed),
+                                  "-metadir", os.path.join(wd, "md"), "-config", cfg, module + ".tla"]
+    try:
+        p = subprocess.run(cmd, cwd=wd, capture_output=True, text=True, timeout=timeout)
+    except subprocess.TimeoutExpired:
+        raise Inconclusive(f"TLC simulation timeout on {module}/{cfg}")
+    out = p.stdout + p.stderr
+    seen, res = set(), []
+    for line in out.splitlines():
+        if line.startswith('"BEHAVIOUR '):
+            js = line[len('"BEHAVIOUR '):].rstrip()
+            if js.endswith('"'):
+                js = js[:-1]
+            js = js.replace('\\"', '"')
+            if js not in seen:
+                seen.add(js)
+                res.append(json.loads(js))
+    if not res:
+        raise Inconclusive(f"TLC simulation of {module}/{cfg} produced no behaviour:\n" + out[-2000:])
+    shutil.rmtree(os.path.join(wd, "md"), ignore_errors=True)
+    return res
